@@ -86,8 +86,7 @@ def save(drv, model, fmt):
     if fmt == "yaml":
         return cio.to_yaml(model)
     if fmt == "dict":
-        import copy
-        return copy.deepcopy(cio.model_to_dict(model))
+        return cio.model_to_dict(model)         # the saved object itself (it must not alias the model)
     if fmt == "pickle":
         return pickle.dumps(model)
     fd, path = tempfile.mkstemp(dir=_tmpdir(), suffix=".xml")
@@ -107,8 +106,7 @@ def load(drv, fmt, doc):
     if fmt == "yaml":
         return cio.from_yaml(doc)
     if fmt == "dict":
-        import copy
-        return cio.model_from_dict(copy.deepcopy(doc))
+        return cio.model_from_dict(doc)         # the saved object itself: every load of it gives the model
     if fmt == "pickle":
         return pickle.loads(doc)
     return cio.read_sbml_model(doc)
